@@ -563,7 +563,9 @@ def rule_glob1(ctx: Ctx) -> RuleResult:
                 if ch and len(ch) >= 2 and ch[0] == "self" and owner is not None:
                     attr = ch[1]
                     ca = prog.lookup_class_attr(owner, attr)
-                    if ca is not None and ca.value is not None and _is_mutable_value(ca.value):
+                    if ca is not None and ca.value is not None and (_is_mutable_value(ca.value) or (
+                            isinstance(ca.value, ast.Call) and norm(ca.value.func).split(".")[-1] not in (
+                                "frozenset", "tuple", "str", "int", "float", "bool", "bytes", "object") and len(ch) >= 3)):
                         inst_assigned = False
                         for k in prog.mro(owner) + prog.subclasses(owner, strict=True):
                             for ms in k.methods.values():
@@ -866,3 +868,38 @@ def rule_glob1_converters(ctx: Ctx) -> RuleResult:
     """GLOB-1 restricted to the run-time string converters."""
     return _scoped_glob1(ctx, "GLOB-1c", "the post-init converter runtime keeps no state shared between classes",
                          lambda o: "string_converters" in o.file)
+
+
+def rule_pure1(ctx: Ctx) -> RuleResult:
+    """Rendering a type to typing code does not change the type graph (so a second rendering sees the same graph)."""
+    rr = RuleResult("PURE-1", "rendering types to code is read-only on the type graph", floor=5)
+    prog = ctx.prog
+    ef = ctx.effects
+    roots = [f for f in prog.all_funcs() if f.name == "to_typing_code"] + [prog.func("json_to_models/dynamic_typing/typing.py",
+                                                                                  "metadata_to_typing")]
+    # constructors initialise fresh objects (AbsoluteModelRef(...)): not followed
+    cone: Set[FuncInfo] = set()
+    stack = list(roots)
+    while stack:
+        g = stack.pop()
+        if g in cone or g.name == "__init__":
+            continue
+        cone.add(g)
+        stack.extend(ctx.cg.callees(g, byname=False) - cone)
+    benign = {"_hash", "_sorted"}  # memo cells that are invalidated with the content (EQ-1)
+    for f in sorted(cone, key=lambda x: x.key):
+        if not f.relpath.startswith("json_to_models/dynamic_typing/"):
+            continue
+        rr.instances += 1
+        bad = []
+        for w in ef.direct_writes(f):
+            if w.root in ("self",) or w.root.startswith("param:") or w.root.startswith("classattr"):
+                attr = w.path.split(".")[1].split("[")[0] if "." in w.path else w.path
+                if attr in benign:
+                    continue
+                bad.append(w)
+        rr.ob(f.relpath, f.qualname, norm(bad[0].node)[:70] if bad else f.name, "no attribute or container of a type object is "
+              "written while annotations are rendered", VIOLATED if bad else DISCHARGED,
+              f"`{bad[0].path}` is modified during rendering: the next rendering of the same registry (other limits, other "
+              f"framework) starts from a degraded graph" if bad else "read-only", bad[0].line if bad else f.node.lineno)
+    return rr
